@@ -34,10 +34,16 @@ def fileEntries (e : Env) (fs : List (Str × Nat × Nat)) : List (Str × PNode) 
   fs.map fun g => (e.key g.1, PNode.file g.1 g.2.1 g.2.2)
 
 theorem decode_of_match (b : Bytes) (n : Str)
-    (h : (match decodeUtf16 b with | .ok m => m == n | .error _ => false) = true) : decodeUtf16 b = .ok n := by
+    (h : (match decodeUtf16 b with | .ok m => m == n && !badName m | .error _ => false) = true) :
+    decodeUtf16 b = .ok n ∧ badName n = false := by
   cases hd : decodeUtf16 b with
   | error _ => rw [hd] at h; simp at h
-  | ok m => rw [hd] at h; simp at h; rw [h]
+  | ok m =>
+    rw [hd] at h
+    simp only [Bool.and_eq_true, beq_iff_eq, Bool.not_eq_true'] at h
+    obtain ⟨h1, h2⟩ := h
+    subst h1
+    exact ⟨rfl, h2⟩
 
 theorem fileLoop_rep (e : Env) : ∀ (fs : List (Str × Nat × Nat)) (off fuel : Nat) (out : List (Str × PNode)) (c : Counters),
     repFiles e off fs = true → off ≠ NONE → fs.length ≤ fuel → c.files + fs.length ≤ e.maxFiles →
@@ -58,10 +64,10 @@ theorem fileLoop_rep (e : Env) : ∀ (fs : List (Str × Nat × Nat)) (off fuel :
     | succ n =>
       simp only [repFiles, Bool.and_eq_true, beq_iff_eq] at hrep
       obtain ⟨⟨⟨⟨⟨_, hlen⟩, hname⟩, hfo⟩, hfs⟩, hrest⟩ := hrep
-      have hname' := decode_of_match _ _ hname
+      obtain ⟨hname', hgood⟩ := decode_of_match _ _ hname
       unfold fileLoop
       have hc : ¬ (c.files + 1 > e.maxFiles) := by omega
-      simp only [hc, if_false, hlen, hname', hfo, hfs]
+      simp only [hc, if_false, hlen, hname', hfo, hfs, hgood, Bool.false_eq_true]
       have hfresh : ∀ p ∈ out, p.1 ≠ e.key f.1 := fun p hp => hout p hp f (by simp)
       rw [dictSet_fresh _ _ _ hfresh]
       simp only [List.map_cons, List.pairwise_cons] at hpw
@@ -171,14 +177,14 @@ theorem walkOK (e : Env) : ∀ fuel, WalkOK e fuel := by
       | cons d ds =>
         simp only [repDirs, Bool.and_eq_true, beq_iff_eq] at hrep
         obtain ⟨⟨⟨⟨_, hlen⟩, hname⟩, hrd⟩, hrest⟩ := hrep
-        have hname' := decode_of_match _ _ hname
+        obtain ⟨hname', hgood⟩ := decode_of_match _ _ hname
         simp only [needDirs] at hfuel
         simp only [numDirsL, numFilesL] at hd hf ⊢
         simp only [DistinctL] at hdl
         simp only [List.map_cons, List.pairwise_cons] at hpw
         unfold dirLoop
         have hc : ¬ (c.dirs + 1 > e.maxDirs) := by omega
-        simp only [hc, if_false, hlen, hname']
+        simp only [hc, if_false, hlen, hname', hgood, Bool.false_eq_true]
         rw [ihA d _ _ hrd (by omega) (by simp only; omega) (by simp only; omega) hdl.1]
         have hfresh : ∀ p ∈ out, p.1 ≠ e.key d.name := fun p hp => hout p hp d (by simp)
         simp only [dictSet_fresh _ _ _ hfresh]
